@@ -124,6 +124,12 @@ int sqfs_meta_reader_seek(sqfs_meta_reader_t *m, sqfs_u64 block_start,
 	if ((block_start + 2 + size) > m->limit)
 		return SQFS_ERROR_OUT_OF_BOUNDS;
 
+	/* the cached block is about to be overwritten; if anything below
+	   fails, it must not be mistaken for the old block anymore */
+	m->block_offset = 0xFFFFFFFFFFFFFFFFUL;
+	m->data_used = 0;
+	m->offset = 0;
+
 	err = m->file->read_at(m->file, block_start + 2, m->data, size);
 	if (err)
 		return err;
